@@ -68,6 +68,14 @@ pub fn shape_of(e: &Value) -> Shape {
         k => panic!("harness: shape kind {k}"),
     }
 }
+/// per-layer shape groups: either {"<layernum>": [shapes]} or [{layer, shapes}]
+fn layer_groups(v: &Value) -> Vec<(i16, Vec<Value>)> {
+    match v {
+        Value::Object(o) => o.iter().map(|(k, s)| (k.parse().unwrap(), s.as_array().cloned().unwrap_or_default())).collect(),
+        Value::Array(a) => a.iter().map(|g| (g["layer"].as_i64().unwrap() as i16, g["shapes"].as_array().cloned().unwrap_or_default())).collect(),
+        _ => vec![],
+    }
+}
 pub fn raw_lib_of(v: &Value) -> raw::Library {
     let layers = std_layers();
     let mut lib = raw::Library::new(gets(v, "name"), units_of(gets(v, "units")));
@@ -76,7 +84,7 @@ pub fn raw_lib_of(v: &Value) -> raw::Library {
     let find = |n: &str| -> Ptr<raw::Cell> { geta(v, "cells").iter().position(|c| gets(c, "name") == n).map(|i| cells[i].clone()).expect("harness: unknown cell") };
     for (i, c) in geta(v, "cells").iter().enumerate() {
         let mut cell = cells[i].write().unwrap();
-        if c.get("elems").is_some() || c.get("insts").is_some() {
+        if c.get("has_layout").map(|b| b.as_bool().unwrap_or(true)).unwrap_or(c.get("elems").is_some() || c.get("insts").is_some()) {
             let mut lay = raw::Layout::default();
             lay.name = gets(c, "name").to_string();
             for inst in geta(c, "insts") {
@@ -98,15 +106,13 @@ pub fn raw_lib_of(v: &Value) -> raw::Library {
             let mut ab = raw::Abstract::new(gets(c, "name"), raw::Polygon { points: rpts(&a["outline"]) });
             for p in geta(a, "ports") {
                 let mut port = raw::AbstractPort::new(gets(p, "net"));
-                for (lnum, shapes) in p["shapes"].as_object().unwrap() {
-                    port.shapes.insert(layers.keynum(lnum.parse().unwrap()).unwrap(), shapes.as_array().unwrap().iter().map(shape_of).collect());
+                for ls in layer_groups(&p["shapes"]) {
+                    port.shapes.insert(layers.keynum(ls.0).unwrap(), ls.1.iter().map(shape_of).collect());
                 }
                 ab.ports.push(port);
             }
-            if let Some(b) = a["blockages"].as_object() {
-                for (lnum, shapes) in b {
-                    ab.blockages.insert(layers.keynum(lnum.parse().unwrap()).unwrap(), shapes.as_array().unwrap().iter().map(shape_of).collect());
-                }
+            for ls in layer_groups(&a["blockages"]) {
+                ab.blockages.insert(layers.keynum(ls.0).unwrap(), ls.1.iter().map(shape_of).collect());
             }
             cell.abs = Some(ab);
         }
@@ -114,4 +120,93 @@ pub fn raw_lib_of(v: &Value) -> raw::Library {
     lib.layers = Ptr::new(layers);
     for c in cells { lib.cells.push(c); }
     lib
+}
+
+// ---------------------------------------------------------------------------------------------
+// vlsir.raw messages <-> abstract JSON (specs/raw/RawProto.tla)
+// ---------------------------------------------------------------------------------------------
+use layout21protos as proto;
+fn ppt(p: &Option<proto::raw::Point>) -> Value { p.as_ref().map(|p| json!([p.x, p.y])).unwrap_or(Value::Null) }
+fn ppts(p: &[proto::raw::Point]) -> Value { json!(p.iter().map(|q| vec![q.x, q.y]).collect::<Vec<_>>()) }
+fn layer_shapes_json(l: &proto::raw::LayerShapes) -> Value {
+    json!({"layer": l.layer.as_ref().map(|x| json!([x.number, x.purpose])).unwrap_or(Value::Null),
+           "rects": l.rectangles.iter().map(|r| json!({"net": r.net, "ll": ppt(&r.lower_left), "w": r.width, "h": r.height})).collect::<Vec<_>>(),
+           "polys": l.polygons.iter().map(|r| json!({"net": r.net, "pts": ppts(&r.vertices)})).collect::<Vec<_>>(),
+           "paths": l.paths.iter().map(|r| json!({"net": r.net, "pts": ppts(&r.points), "w": r.width})).collect::<Vec<_>>()})
+}
+pub fn proto_json(p: &proto::raw::Library) -> Value {
+    let units = match proto::raw::Units::from_i32(p.units) { Some(proto::raw::Units::Micro) => "Micro", Some(proto::raw::Units::Nano) => "Nano",
+                                                           Some(proto::raw::Units::Angstrom) => "Angstrom", None => "?" };
+    json!({"domain": p.domain, "units": units, "cells": p.cells.iter().map(|c| json!({"name": c.name,
+        "layout": c.layout.as_ref().map(|l| json!([{"name": l.name,
+            "instances": l.instances.iter().map(|i| json!({"name": i.name,
+                "cell": match i.cell.as_ref().and_then(|r| r.to.as_ref()) { Some(proto::utils::reference::To::Local(n)) => json!(n), _ => Value::Null },
+                "loc": ppt(&i.origin_location), "refl": i.reflect_vert, "rot": i.rotation_clockwise_degrees})).collect::<Vec<_>>(),
+            "annotations": l.annotations.iter().map(|a| json!({"str": a.string, "at": ppt(&a.loc)})).collect::<Vec<_>>(),
+            "shapes": l.shapes.iter().map(layer_shapes_json).collect::<Vec<_>>()}])).unwrap_or(json!([])),
+        "abs": c.r#abstract.as_ref().map(|a| json!([{"name": a.name,
+            "outline": a.outline.as_ref().map(|o| json!({"net": o.net, "pts": ppts(&o.vertices)})).unwrap_or(Value::Null),
+            "ports": a.ports.iter().map(|p| json!({"net": p.net, "shapes": p.shapes.iter().map(layer_shapes_json).collect::<Vec<_>>()})).collect::<Vec<_>>(),
+            "blockages": a.blockages.iter().map(layer_shapes_json).collect::<Vec<_>>()}])).unwrap_or(json!([]))})).collect::<Vec<_>>()})
+}
+fn opt_pt(v: &Value) -> Option<proto::raw::Point> { if v.is_null() { None } else { Some(proto::raw::Point::new(v[0].as_i64().unwrap(), v[1].as_i64().unwrap())) } }
+fn vec_pts(v: &Value) -> Vec<proto::raw::Point> { v.as_array().map(|a| a.iter().map(|p| proto::raw::Point::new(p[0].as_i64().unwrap(), p[1].as_i64().unwrap())).collect()).unwrap_or_default() }
+fn layer_shapes_of(v: &Value) -> proto::raw::LayerShapes {
+    proto::raw::LayerShapes { layer: if v["layer"].is_null() { None } else { Some(proto::raw::Layer::new(v["layer"][0].as_i64().unwrap(), v["layer"][1].as_i64().unwrap())) },
+        rectangles: geta(v, "rects").iter().map(|r| proto::raw::Rectangle { net: gets(r, "net").into(), lower_left: opt_pt(&r["ll"]), width: geti(r, "w"), height: geti(r, "h") }).collect(),
+        polygons: geta(v, "polys").iter().map(|r| proto::raw::Polygon { net: gets(r, "net").into(), vertices: vec_pts(&r["pts"]) }).collect(),
+        paths: geta(v, "paths").iter().map(|r| proto::raw::Path { net: gets(r, "net").into(), points: vec_pts(&r["pts"]), width: geti(r, "w") }).collect() }
+}
+pub fn proto_of(v: &Value) -> proto::raw::Library {
+    let mut p = proto::raw::Library::default();
+    p.domain = gets(v, "domain").into();
+    p.units = match gets(v, "units") { "Micro" => 0, "Nano" => 1, "Angstrom" => 2, _ => 99 };
+    for c in geta(v, "cells") {
+        let mut pc = proto::raw::Cell::default();
+        pc.name = gets(c, "name").into();
+        if let Some(l) = c["layout"].as_array().and_then(|a| a.first()) {
+            pc.layout = Some(proto::raw::Layout { name: gets(l, "name").into(),
+                shapes: geta(l, "shapes").iter().map(layer_shapes_of).collect(),
+                instances: geta(l, "instances").iter().map(|i| proto::raw::Instance { name: gets(i, "name").into(),
+                    cell: if i["cell"].is_null() { None } else { Some(proto::utils::Reference { to: Some(proto::utils::reference::To::Local(gets(i, "cell").into())) }) },
+                    origin_location: opt_pt(&i["loc"]), reflect_vert: getb(i, "refl"), rotation_clockwise_degrees: geti(i, "rot") as i32 }).collect(),
+                annotations: geta(l, "annotations").iter().map(|a| proto::raw::TextElement { string: gets(a, "str").into(), loc: opt_pt(&a["at"]) }).collect() });
+        }
+        if let Some(a) = c["abs"].as_array().and_then(|a| a.first()) {
+            pc.r#abstract = Some(proto::raw::Abstract { name: gets(a, "name").into(),
+                outline: if a["outline"].is_null() { None } else { Some(proto::raw::Polygon { net: gets(&a["outline"], "net").into(), vertices: vec_pts(&a["outline"]["pts"]) }) },
+                ports: geta(a, "ports").iter().map(|p| proto::raw::AbstractPort { net: gets(p, "net").into(), shapes: geta(p, "shapes").iter().map(layer_shapes_of).collect() }).collect(),
+                blockages: geta(a, "blockages").iter().map(layer_shapes_of).collect() });
+        }
+        p.cells.push(pc);
+    }
+    p
+}
+/// raw library -> abstract JSON incl. abstracts (layers by NUMBER)
+pub fn raw_lib_json(lib: &raw::Library) -> Result<Value, String> {
+    let layers = lib.layers.read().map_err(|_| "poisoned")?;
+    let by_num = |m: &std::collections::HashMap<raw::LayerKey, Vec<Shape>>| -> Value {
+        let mut o = Map::new();
+        for (k, shapes) in m { o.insert(layers.get(*k).map(|l| l.layernum.to_string()).unwrap_or("?".into()), Value::Array(shapes.iter().map(shape_json).collect())); }
+        Value::Object(o)
+    };
+    let mut cells = Vec::new();
+    for c in lib.cells.iter() {
+        let c = c.read().map_err(|_| "poisoned")?;
+        let mut o = json!({"name": c.name, "has_layout": c.layout.is_some()});
+        if let Some(l) = &c.layout {
+            o["lname"] = json!(l.name);
+            o["own"] = Value::Array(l.elems.iter().map(|e| { let lay = layers.get(e.layer); let mut v = shape_json(&e.inner);
+                v["layer"] = json!(lay.map(|l| l.layernum)); v["dt"] = json!(lay.and_then(|l| l.num(&e.purpose))); v["net"] = json!(e.net); v }).collect());
+            o["annots"] = Value::Array(l.annotations.iter().map(|a| json!({"str": a.string, "at": [a.loc.x, a.loc.y]})).collect());
+            o["insts"] = Value::Array(l.insts.iter().map(|i| json!({"name": i.inst_name, "cell": i.cell.read().map(|c| c.name.clone()).unwrap_or_default(),
+                "loc": [i.loc.x, i.loc.y], "refl": i.reflect_vert, "angle": i.angle})).collect());
+        }
+        if let Some(a) = &c.abs {
+            o["abs"] = json!({"name": a.name, "outline": a.outline.points.iter().map(|q| vec![q.x, q.y]).collect::<Vec<_>>(),
+                "ports": a.ports.iter().map(|p| json!({"net": p.net, "shapes": by_num(&p.shapes)})).collect::<Vec<_>>(), "blockages": by_num(&a.blockages)});
+        }
+        cells.push(o);
+    }
+    Ok(json!({"name": lib.name, "units": format!("{:?}", lib.units), "cells": cells}))
 }
